@@ -212,6 +212,17 @@ func (c *Cursor) last() {
 // next moves to the next leaf element and returns the key and value.
 // If the cursor is at the last leaf element then it stays there and returns nil.
 func (c *Cursor) next() (key []byte, value []byte, flags uint32) {
+	// Fast path: the next element is on the current leaf.
+	if n := len(c.stack); n > 0 {
+		if top := &c.stack[n-1]; top.index < top.count()-1 {
+			top.index++
+			return c.keyValue()
+		}
+	}
+
+	// Remember the current position: if there is no next element (the
+	// remaining pages may all be empty) the cursor must stay where it is.
+	saved := append([]elemRef(nil), c.stack...)
 	for {
 		// Attempt to move over one element until we're successful.
 		// Move up the stack as we hit the end of each page in our stack.
@@ -227,6 +238,7 @@ func (c *Cursor) next() (key []byte, value []byte, flags uint32) {
 		// If we've hit the root page then stop and return. This will leave the
 		// cursor on the last element of the last page.
 		if i == -1 {
+			c.stack = saved
 			return nil, nil, 0
 		}
 
